@@ -56,7 +56,8 @@ class Collector(object):
                 self.samples.append(key if len(str(key)) < 300 else str(key)[:300])
 
     def violation(self, name, text, inputs):
-        if len(self.violations) < 5:
+        # at most 3 per violation name, so that a known class never crowds out a different violation
+        if sum(1 for v in self.violations if v["name"] == name) < 3:
             self.violations.append(dict(name=name, text=text, inputs=inputs))
 
     def result(self):
